@@ -1,5 +1,6 @@
 (* Extraction of the step file model.  ExtrOcamlBasic only. *)
 From Coq Require Import Extraction ExtrOcamlBasic.
-From Robsd Require Import Step.StepDefs Step.StepSpec Step.StepFault Step.StepNameSpec.
+From Robsd Require Import Step.StepDefs Step.StepSpec Step.StepFault Step.StepNameSpec Step.StepOracle2Defs.
 Extraction Language OCaml.
-Extraction "st_model.ml" write_cmd write_cmdk read_cmd parse_file row_id header spec_ok_history spec_ok_names spec_nrows.
+Extraction "st_model.ml" write_cmd write_cmdk read_cmd parse_file row_id header spec_ok_history spec_ok_names spec_nrows
+  spec_ok_history2 spec_ok_names2 first_mismatch serialize_rows sort_rows write_new.
